@@ -71,6 +71,7 @@ def generate(gen, tier):
     n = 150 if tier == 'quick' else 3750
     for _ in range(n):
         cases.append({'lines': [], 'o': {'exotic': gen.rng.randrange(10**9)}})
+    cases.append({'lines': [], 'o': {'exotic': 0, 'aliases': 1}})
     return cases
 
 
@@ -92,6 +93,28 @@ def _distribution(cases):
     return tree_distribution(cases)
 
 
+def _aliases():
+    """the alias namespaces optree.pytree / optree.treespec name the very functions of the top-level API"""
+    import optree
+    import optree.pytree as pt
+    import optree.treespec as ts
+    fails = []
+    special = {'register_node': 'register_pytree_node', 'register_node_class': 'register_pytree_node_class',
+               'unregister_node': 'unregister_pytree_node', 'dict_insertion_ordered': 'dict_insertion_ordered'}
+    for name in pt.__all__:
+        target = special.get(name, 'tree_' + name)
+        if not hasattr(optree, target) or getattr(pt, name) is not getattr(optree, target):
+            fails.append({'key': 'alias-pytree', 'what': f'optree.pytree.{name} is not optree.{target}'})
+    for name in ts.__all__:
+        target = 'treespec_' + name
+        if not hasattr(optree, target) or getattr(ts, name) is not getattr(optree, target):
+            fails.append({'key': 'alias-treespec', 'what': f'optree.treespec.{name} is not optree.{target}'})
+    for name in optree.__all__:
+        if not hasattr(optree, name):
+            fails.append({'key': 'alias-missing', 'what': f'optree.__all__ lists {name} which is not defined'})
+    return fails
+
+
 def outcome(f):
     try:
         return ('ok', f())
@@ -106,6 +129,8 @@ def same(a, b):
 
 
 def oracle(impl, o):
+    if 'aliases' in o:
+        return _aliases()
     if 'exotic' in o:
         import optree as _optree
         from props import exotic
